@@ -13,7 +13,7 @@ from vmon.ref import torus as T
 
 ID = 'C01'
 RULE = ('named crystal pool (Bravais and multi-site, 2-D and 3-D, with and without site vector basis / origin states, one and '
-        'several Wyckoff sets) x Nthermo in {1,2} x input masks (one input group randomised at a time, or all) x sigma in '
+        'several Wyckoff sets, low-symmetry point groups 1bar, 2, 2/m, 4/m where the solute-vacancy tensor is not symmetric) x Nthermo in {1,2} x input masks (one input group randomised at a time, or all) x sigma in '
         '{0.3,0.7,1.5}; non-trivial = every case (a solute is present); distinct = (crystal, Nthermo, mask, sigma, input index)')
 ASSUMPTIONS = ['(a) algebraic tolerance 1e-9 x max|L0vv|; the torus is large enough that kinetic states and their one-jump '
                'neighbours stay distinct (Torus.needed_L)',
@@ -22,14 +22,15 @@ ASSUMPTIONS = ['(a) algebraic tolerance 1e-9 x max|L0vv|; the torus is large eno
                'energies |beta F| <= ~6; the classification of omega1/omega2/thermodynamic states read from the calculator is '
                'checked separately (C24-C26)']
 REQUIRED_OBS = {'eval:C01:stub:Lss': 20, 'eval:C01:stub:Lsv': 20, 'eval:C01:stub:L1vv': 20, 'eval:C01:L0vv=R1': 20,
-                'eval:C01:gauge:Lss': 10, 'eval:C01:e2e:Lss': 4, 'multi_wyckoff': 4, 'dim2': 4, 'multisite': 6}
+                'eval:C01:gauge:Lss': 10, 'eval:C01:e2e:Lss': 4, 'multi_wyckoff': 4, 'dim2': 4, 'multisite': 6, 'axial_crystals': 8}
 CASE_TIMEOUT = 900
 
 QUICK = [('fcc', 1), ('bcc', 1), ('sc', 1), ('hcp', 1), ('square', 1), ('honey', 1), ('omega', 1), ('diamond', 1),
-         ('tria', 1), ('b2', 1), ('lieb', 1), ('dtria', 1), ('rumpled', 1), ('fcc', 2), ('square', 2), ('honey', 2)]
+         ('tria', 1), ('b2', 1), ('lieb', 1), ('dtria', 1), ('rumpled', 1), ('fcc', 2), ('square', 2), ('honey', 2),
+         ('tric', 1), ('mono', 1), ('p4m', 1), ('p2', 1), ('mono2', 1)]
 THOROUGH = QUICK + [('kagome', 1), ('l12', 1), ('tet', 1), ('rect', 1), ('bcc', 2), ('sc', 2), ('hcp', 2), ('tria', 2),
-                    ('dtria', 2), ('diamond', 2), ('rect', 2), ('lieb', 2)]
-E2E = {('fcc', 1), ('bcc', 1), ('sc', 1), ('square', 1), ('tria', 1), ('honey', 1), ('dtria', 1)}
+                    ('dtria', 2), ('diamond', 2), ('rect', 2), ('lieb', 2), ('p2', 2), ('mono', 2)]
+E2E = {('fcc', 1), ('bcc', 1), ('sc', 1), ('square', 1), ('tria', 1), ('honey', 1), ('dtria', 1), ('p2', 1)}
 E2E_THOROUGH = E2E | {('hcp', 1), ('square', 2), ('lieb', 1), ('rect', 1), ('tet', 1)}
 
 
@@ -68,6 +69,7 @@ def run_case(case):
         mon.sig([name, nth, mask, sigma, k])
         for t in ('multi_wyckoff', 'dim2', 'multisite', 'origin_states', 'Nthermo2'):
             mon.count(t, t in tags)
+        mon.count('axial_crystals', contracts.axial_point_group(diff.crys))
         # exact chain
         L0c, Lssc, Lsvc, L1c = tor.predict(args)
         mon.count('chain_states', tor.nstates)
@@ -110,7 +112,7 @@ def run_case(case):
             mon.close(a, b, 1e-8, 'C01:gauge:' + nm, det(nm + ' C=%g' % C, a, b), tags, scale=sc)
         contracts.tensor2_contract(mon, diff.crys, Lr[0], 'L0vv', True, scale=sc, prefix='C01')
         contracts.tensor2_contract(mon, diff.crys, Lr[1], 'Lss', True, scale=sc, prefix='C01')
-        contracts.tensor2_contract(mon, diff.crys, Lr[2], 'Lsv', False, scale=sc, prefix='C01')
+        contracts.tensor2_contract(mon, diff.crys, Lr[2], 'Lsv', False, scale=sc, prefix='C01', symmetric=False)
         contracts.tensor2_contract(mon, diff.crys, Lr[3], 'L1vv', False, scale=sc, prefix='C01')
         # (b) end to end with finite-size extrapolation X(L) = X + a L^-d + b L^-(d+2) from three torus sizes
         if case.get('e2e') and k < 2:
